@@ -77,6 +77,7 @@ Scripts == [ tick |-> << <<"inst", 32, 16, 0>>, <<"gen", 16, 0>>, <<"tick", Time
              \* request sizes across the NIST-mode per-request maximum, each followed by further requests
              sizes |-> << <<"inst", 32, 16, 0>>, <<"gen", 2048, 0>>, <<"gen", 2049, 7>>, <<"gen", 1, 0>>, <<"gen", 2047, 7>>,
                           <<"reseed", 32, 0>>, <<"gen", 2048, 7>>, <<"gen", 2049, 0>>, <<"gen", 0, 0>>, <<"gen", 33, 0>> >>,
+             sizes2 |-> << <<"inst", 32, 16, 0>>, <<"gen", 2048, 0>>, <<"gen", 2049, 7>>, <<"gen", 33, 0>> >>,
              none |-> <<>> ]
 Script == Scripts[ScriptName]
 View == <<inst, st.reseed_counter, NeedReseed, win, IF Window >= MaxOps \/ Script # <<>> \/ Reach THEN nops ELSE 0>>
